@@ -22,7 +22,7 @@ ASSUMPTIONS = [
     "BaseException failures are outside the statement ('any Exception') and are not injected here",
     "after the runaway-recursion guard has tripped inside a nested sync call, get_active_task() is only checked again once the computation has ended",
 ]
-UNIT_TIMEOUT = {"quick": 240, "thorough": 2400}
+UNIT_TIMEOUT = {"quick": 150, "thorough": 2400}
 
 COMMON = dict(
     p_shared=0.25,
@@ -170,7 +170,7 @@ def run_unit(unit, progress):
             how = rnd.choice(HOWS)
             rt = harness.HarnessRT(prog, prio=rnd.choice([None, ("tie",), ("kind", [1, 0]), ("fewest",)]), seed=cs)
             tripped = []
-            if opts["kind"] != "runaway":
+            if True:
                 rt.step_probes.append(M.active_task_probe)
 
                 def after_sync(rt_, fr, ok):
